@@ -161,7 +161,9 @@ func getFloatToStringFunction() schema.CallableFunction {
 	funcSchema, err := schema.NewCallableFunction(
 		"floatToString",
 		[]schema.Type{schema.NewFloatSchema(nil, nil, nil)},
-		schema.NewStringSchema(nil, nil, regexp.MustCompile(`^\d+\.\d*$`)),
+		// 'f' format without exponent: -ddd.dddd, the fraction is only present when needed.
+		// The special values are formatted as NaN, +Inf and -Inf.
+		schema.NewStringSchema(nil, nil, regexp.MustCompile(`^(?:NaN|[-+]Inf|-?\d+(?:\.\d+)?)$`)),
 		false,
 		schema.NewDisplayValue(
 			schema.PointerTo("floatToString"),
@@ -199,7 +201,9 @@ func getFloatToFormattedStringFunction() schema.CallableFunction {
 		schema.NewStringSchema(
 			nil,
 			nil,
-			regexp.MustCompile(`^-?(?:0[xX])?\d+(?:\.\d*)?(?:[pPeE][-+]\d{2,3})?$`)),
+			// Hexadecimal formats contain hexadecimal digits, binary exponents have up to four digits,
+			// and the special values are formatted as NaN, +Inf and -Inf.
+			regexp.MustCompile(`^(?:NaN|[-+]Inf|-?(?:0[xX])?[0-9a-fA-F]+(?:\.[0-9a-fA-F]*)?(?:[pPeE][-+]\d{2,4})?)$`)),
 		false,
 		schema.NewDisplayValue(
 			schema.PointerTo("floatToFormattedString"),
